@@ -54,6 +54,8 @@ def trigger_library():
         "header_jump2": ("# A\n\n## B\n\n#### C\n\n## D\n", {}, ("myst", "header")),
         "topmatter": ("---\nmyst: 1\n---\n\ntext\n", {}, ("myst", "topmatter")),
         "topmatter_field": ("---\nmyst:\n  nosuch: 1\n---\n\ntext\n", {}, ("myst", "topmatter")),
+        # a file-level configuration problem in a document whose body is one section (docutils promotes it to the title)
+        "topmatter_h1": ("---\nmyst:\n  nosuch: 1\n---\n\n# Only title\n\ntext\n", {}, ("myst", "topmatter")),
         "duplicate_def": ("[a]: http://b.c\n[a]: http://c.d\n\n[a]\n", {}, ("myst", "duplicate_def")),
         "directive_unknown": ("```{nosuchdir}\nbody\n```\n", {}, ("myst", "directive_unknown")),
         "role_unknown": ("{nosuchrole}`x`\n", {}, ("myst", "role_unknown")),
@@ -219,6 +221,10 @@ def _pair(job):
         a, ua = render_items(text, ov, [])
         b, ub = render_items(text, ov, suppress)
         res = {"id": tid, "names": names, "text": text, "suppress": suppress, "outA": a, "outB": b, "untagged": ua + ub}
+        if suppress and tid % 2 == 0:
+            # a suppressed warning is reported at NO level: the same run with every message level on the stream
+            b1, _ = render_items(text, {**ov, "report_level": 1}, suppress)
+            res["info_leak"] = [it[1] for it in b1 if it[0] in ("log", "warn") and _supp(it[1], suppress)]
         if ov.get("doctitle_xform"):
             # the same pair without docutils' title promotion, and the shape of the unsuppressed document (for the
             # signature of the finding C14-doctitle-promotion)
@@ -237,7 +243,13 @@ def top_shape(text, ov):
     from docutils import nodes
     from ..frontends import docutils_doctree
     doc, _ = docutils_doctree(text, {**ov, "myst_suppress_warnings": []})
-    out = ["warn" if isinstance(c, nodes.system_message) else c.tagname for c in doc.children]
+    import re
+    tagre = re.compile(r"\[([\w]+\.[\w.\-*]+)\]\s*$")
+
+    def wtag(c):
+        m = tagre.search(c.astext())
+        return "warn:" + (m.group(1) if m else "untagged")
+    out = [wtag(c) if isinstance(c, nodes.system_message) else c.tagname for c in doc.children]
     secs = [c for c in doc.children if isinstance(c, nodes.section)]
     if len(secs) == 1 and len(secs[0]) and isinstance(secs[0][0], nodes.title) and list(secs[0][0].findall(nodes.system_message)):
         out.append("title-warn")         # the only section's title holds a warning node (its text ends up in document['title'])
@@ -248,6 +260,9 @@ def _supp(tag, suppress):
     return any(e[0] == tag[0] and e[1] in ("", "*", tag[1]) for e in suppress)
 
 
+TRAILING_SITES = {"warn:myst.duplicate_def", "warn:ref.footnote", "warn:myst.heading_slug"}
+
+
 def _only_promotion(o):
     """signature of C14-doctitle-promotion: exactly one top-level section, everything after it are warning nodes, at least
     one of which the list suppresses; AND without the doctitle/subtitle transforms the pair satisfies the relation"""
@@ -255,9 +270,12 @@ def _only_promotion(o):
     top = [k for k in o["top"] if k not in ("comment", "target", "substitution_definition", "pending", "meta", "docinfo", "title-warn", "footnote", "transition")]
     title_warn = "title-warn" in o["top"]
     lead = 0
-    while lead < len(top) and top[lead] == "warn":
+    while lead < len(top) and top[lead].startswith("warn"):
         lead += 1
-    shape = top[lead:lead + 1] == ["section"] and len(top) > lead + 1 and all(k == "warn" for k in top[lead + 1:])
+    # (the call sites that put a warning at document level after the content: the duplicate-definition report of
+    # _render_finalise and the footnote reports; a warning of any other origin in that place is not this finding)
+    shape = (top[lead:lead + 1] == ["section"] and len(top) > lead + 1 and all(k.startswith("warn") for k in top[lead + 1:])
+             and all(k in TRAILING_SITES for k in top[lead + 1:]))
     shape = shape or (title_warn and top.count("section") == 1)
     if not shape:
         return False
@@ -390,7 +408,7 @@ def run(ctx):
         tid += 1
     nlib = len(jobs)
     alltags = sorted({t for _, _, t in lib.values()})
-    names = [n for n in lib if n not in ("topmatter", "topmatter_field", "deprecated", "heading_slug", "inv_retrieval")]
+    names = [n for n in lib if n not in ("topmatter", "topmatter_field", "deprecated", "heading_slug", "inv_retrieval", "fm_suppress_list", "fm_suppress_empty", "topmatter_h1")]
     for _ in range(150 if quick else 3000):
         pick = rnd.sample(names, rnd.randint(2, 4))
         text = "\n".join(lib[n][0] for n in pick)
@@ -463,6 +481,8 @@ def run(ctx):
         anysup = o["outA"] != o["outB"]
         ctx.count(("pair", v["id"]), nontrivial=anysup)
         ctx.traces_validated += 1
+        if o.get("info_leak"):
+            ctx.violation(f"suppress_warnings={case['suppress_warnings']}: with report_level=1 the suppressed warning(s) {o['info_leak']} are still reported", case)
         if not v["catalogue"]:
             ctx.violation("a [myst.*] tag outside the MystWarnings catalogue was emitted", case)
         if not v["relation"]:
